@@ -241,10 +241,360 @@ fn arg_val(args: &[String], name: &str) -> Option<String> {
     args.iter().position(|a| a == name).and_then(|i| args.get(i + 1).cloned())
 }
 
+// ---------------------------------------------------------------------------------------------
+// known findings
+
+#[derive(Clone, Debug, Serialize, Deserialize)]
+pub struct KnownFinding {
+    pub id: String,
+    pub property: String,
+    /// violation kind name: Panic, State, ResultValue, OutcomeClass, Output, Invariant
+    pub kind: String,
+    /// regex on the failing statement's source text
+    pub source_regex: String,
+    /// regex on the observed text (panic payload, observed value, ...)
+    pub observed_regex: String,
+    /// optional regex that must match some earlier statement of the minimised script
+    #[serde(default)]
+    pub context_regex: Option<String>,
+    pub what: String,
+}
+
+#[derive(Clone, Debug, Serialize, Deserialize, Default)]
+pub struct KnownFindings {
+    pub findings: Vec<KnownFinding>,
+    #[serde(default)]
+    pub fixed: Vec<String>,
+}
+
+pub fn load_known(path: &str) -> KnownFindings {
+    match std::fs::read_to_string(path) {
+        Ok(t) => serde_json::from_str(&t).expect("known_findings.json does not parse"),
+        Err(_) => KnownFindings::default(),
+    }
+}
+
+fn kind_name(k: &ViolationKind) -> String {
+    match k {
+        ViolationKind::Invariant(n) => format!("Invariant:{}", n),
+        k => format!("{:?}", k),
+    }
+}
+
+pub fn match_known<'a>(kf: &'a KnownFindings, script: &Script, v: &Violation) -> Option<&'a KnownFinding> {
+    let rend = rendered(script);
+    for f in kf.findings.iter() {
+        if f.kind != kind_name(&v.kind) {
+            continue;
+        }
+        let sr = regex::Regex::new(&f.source_regex).expect("bad source_regex");
+        let or = regex::Regex::new(&f.observed_regex).expect("bad observed_regex");
+        if !sr.is_match(&v.source) || !or.is_match(&v.observed) {
+            continue;
+        }
+        if let Some(c) = &f.context_regex {
+            let cr = regex::Regex::new(c).expect("bad context_regex");
+            if !rend.iter().any(|l| cr.is_match(l)) {
+                continue;
+            }
+        }
+        return Some(f);
+    }
+    None
+}
+
+/// which property a violation is evidence against
+pub fn property_of(check_property: &str, v: &Violation) -> String {
+    match v.kind {
+        ViolationKind::Panic => "C14".to_string(),
+        _ => check_property.to_string(),
+    }
+}
+
+pub fn profiles_for(property: &str) -> Vec<&'static str> {
+    match property {
+        "C01" => vec!["alias"],
+        p => panic!("no profile for property {}", p),
+    }
+}
+
+fn write_replay(dir: &str, r: &Replay) -> String {
+    std::fs::create_dir_all(dir).unwrap();
+    let path = format!("{}/{}-{}-{}-{}.json", dir, r.property, r.profile, r.base_seed, r.run_index);
+    std::fs::write(&path, serde_json::to_string_pretty(r).unwrap()).unwrap();
+    path
+}
+
+/// replay in a fresh process: must fail the same way
+fn confirm_replay(path: &str) -> bool {
+    let exe = std::env::current_exe().unwrap();
+    match std::process::Command::new(exe).arg("replay").arg(path).output() {
+        Ok(o) => o.status.code() == Some(1),
+        Err(_) => false,
+    }
+}
+
+pub fn do_replay(path: &str) -> i32 {
+    let text = match std::fs::read_to_string(path) {
+        Ok(t) => t,
+        Err(e) => {
+            eprintln!("cannot read {}: {}", path, e);
+            return 2;
+        }
+    };
+    let r: Replay = match serde_json::from_str(&text) {
+        Ok(r) => r,
+        Err(e) => {
+            eprintln!("cannot parse {}: {}", path, e);
+            return 2;
+        }
+    };
+    let res = execute(&r.script);
+    for l in res.log.iter() {
+        println!("{}", l);
+    }
+    match res.end {
+        RunEnd::Violation(v) => {
+            println!(
+                "replay: violation kind={:?} stmt={} expected={} observed={}",
+                v.kind, v.stmt_index, v.expected, v.observed
+            );
+            if crate::min::class_of(&v) == crate::min::class_of(&r.violation) && v.stmt_index == r.violation.stmt_index {
+                println!("VIOLATION property={} replay={}", r.property, path);
+                1
+            } else {
+                println!("replay: a different violation than recorded");
+                3
+            }
+        }
+        RunEnd::Completed => {
+            println!("replay: completed without violation");
+            0
+        }
+        RunEnd::Inconclusive(m) => {
+            println!("replay: inconclusive: {}", m);
+            0
+        }
+    }
+}
+
+pub fn do_check(args: &[String]) -> i32 {
+    let property = arg_val(args, "--property").expect("--property");
+    let tier = arg_val(args, "--tier")
+        .or_else(|| std::env::var("VERIF_TIER").ok())
+        .unwrap_or_else(|| "quick".to_string());
+    let seed: u64 = std::env::var("VERIF_SEED")
+        .ok()
+        .and_then(|s| s.parse().ok())
+        .unwrap_or(20260922);
+    let threads: usize = arg_val(args, "--threads").and_then(|s| s.parse().ok()).unwrap_or(16);
+    let evidence_path = arg_val(args, "--evidence").unwrap_or_else(|| format!("evidence/{}.json", property));
+    let replay_dir = arg_val(args, "--replays").unwrap_or_else(|| "replays".to_string());
+    let known = load_known(&arg_val(args, "--known").unwrap_or_else(|| "known_findings.json".to_string()));
+    let (runs, cap, seeds): (u64, f64, Vec<u64>) = if tier == "thorough" {
+        (
+            arg_val(args, "--runs").and_then(|s| s.parse().ok()).unwrap_or(1_500_000),
+            arg_val(args, "--cap").and_then(|s| s.parse().ok()).unwrap_or(900.0),
+            vec![seed, seed.wrapping_add(1), seed.wrapping_mul(31).wrapping_add(7)],
+        )
+    } else {
+        (
+            arg_val(args, "--runs").and_then(|s| s.parse().ok()).unwrap_or(40_000),
+            arg_val(args, "--cap").and_then(|s| s.parse().ok()).unwrap_or(120.0),
+            vec![seed],
+        )
+    };
+    println!("VERIF_SEED={} property={} tier={}", seed, property, tier);
+    let start = Instant::now();
+    let profiles = profiles_for(&property);
+    let mut total = Agg::default();
+    let mut capped_any = false;
+    let mut per_profile = Vec::new();
+    for prof in profiles.iter() {
+        for (si, s) in seeds.iter().enumerate() {
+            let cfg = BatchCfg {
+                profile: prof.to_string(),
+                base_seed: *s,
+                runs: runs / seeds.len() as u64,
+                threads,
+                wall_cap_s: cap / (profiles.len() * seeds.len()) as f64,
+                log_dir: None,
+            };
+            let (agg, wall, capped) = run_batch(&cfg);
+            capped_any |= capped;
+            per_profile.push(json!({"profile": prof, "seed": s, "seed_no": si, "runs": agg.runs, "wall_s": wall, "capped": capped}));
+            let mut tagged = agg;
+            // remember which batch a violation came from
+            for v in tagged.violations.iter_mut() {
+                v.1.detail = format!("profile={} base_seed={}", prof, s);
+            }
+            merge(&mut total, tagged);
+        }
+    }
+    total.violations.sort_by_key(|v| v.0);
+
+    // triage violations: minimise, match against known findings, confirm by replay
+    let mut new_violations: Vec<String> = Vec::new();
+    let mut known_hits: BTreeMap<String, u64> = BTreeMap::new();
+    let mut foreign_hits: BTreeMap<String, u64> = BTreeMap::new();
+    let mut harness_errors = 0;
+    let mut seen_classes: BTreeMap<String, u64> = BTreeMap::new();
+    let violation_count = total.violations.len();
+    for (idx, v, script) in total.violations.iter() {
+        let cls = format!("{}|{}", crate::min::class_of(v), v.source);
+        let n = seen_classes.entry(cls).or_insert(0);
+        *n += 1;
+        if *n > 1 || seen_classes.len() > 12 {
+            // same statement text and class as one already triaged, or enough distinct reports
+            continue;
+        }
+        let (ms, mv) = crate::min::minimise(script, v, 600);
+        let prop_of = property_of(&property, &mv);
+        if let Some(f) = match_known(&known, &ms, &mv) {
+            *known_hits.entry(f.id.clone()).or_insert(0) += 1;
+            continue;
+        }
+        if prop_of != property {
+            // a crash found by another property's workload: C14's own check reports it
+            *foreign_hits.entry(format!("{}: {}", prop_of, mv.observed)).or_insert(0) += 1;
+            continue;
+        }
+        let (profile, base_seed) = {
+            let mut p = String::new();
+            let mut b = 0u64;
+            for part in v.detail.split(' ') {
+                if let Some(x) = part.strip_prefix("profile=") {
+                    p = x.to_string();
+                }
+                if let Some(x) = part.strip_prefix("base_seed=") {
+                    b = x.parse().unwrap_or(0);
+                }
+            }
+            (p, b)
+        };
+        let replay = Replay {
+            property: prop_of.clone(),
+            profile,
+            base_seed,
+            run_index: *idx,
+            violation: mv.clone(),
+            rendered: rendered(&ms),
+            script: ms,
+            minimised: true,
+        };
+        let path = write_replay(&replay_dir, &replay);
+        if confirm_replay(&path) {
+            println!("--- violation (minimised to {} statements):", replay.rendered.len());
+            for l in replay.rendered.iter() {
+                println!("    {}", l);
+            }
+            println!("    expected: {}", mv.expected);
+            println!("    observed: {}", mv.observed);
+            println!("VIOLATION property={} replay={}", prop_of, path);
+            new_violations.push(path);
+        } else {
+            println!("HARNESS-ERROR: violation did not replay in a fresh process: {}", path);
+            harness_errors += 1;
+        }
+    }
+    for f in known.findings.iter().filter(|f| f.property == property) {
+        println!(
+            "KNOWN-FINDING: property={} {} [{}; hit {} time(s) in this run]",
+            f.property,
+            f.what,
+            f.id,
+            known_hits.get(&f.id).cloned().unwrap_or(0)
+        );
+    }
+    for (k, n) in foreign_hits.iter() {
+        println!("note: foreign violation seen {} time(s): {}", n, k);
+    }
+
+    let wall = start.elapsed().as_secs_f64();
+    // evidence
+    let rule = "cases are generated sessions (scripts of NL-core statements + fault plan + hasher configuration) drawn from the property's swarm profile by a PRNG seeded from VERIF_SEED and the run index; a case is non-trivial when the profile's trigger condition occurred (stated per profile in DESIGN.md section 5: for `alias` at least one mutation statement after at least one alias-creating statement); distinct = distinct rendered script text";
+    let ev = json!({
+        "property_id": property,
+        "tier": tier,
+        "seed": seed,
+        "level": "exploration",
+        "wall_s": wall,
+        "violations": new_violations.len(),
+        "assumptions": [
+            "the reference model (sim/src/model.rs, builtins.rs) encodes the documented semantics; runs where it declines to predict are counted as inconclusive and never as violations",
+            "hooks H1/H2 (cfg betaveros_noulith_verif) do not change interpreter behaviour other than bounding evaluation and choosing hash seeds",
+            "seeded sampling: a clean batch is evidence, not proof"
+        ],
+        "coverage": {
+            "evaluations": total.runs,
+            "distinct_nontrivial": total.nontrivial_hashes.len(),
+            "rule": rule,
+            "samples": total.samples,
+            "exhaustive": false,
+            "runs_completed": total.completed,
+            "runs_inconclusive": total.inconclusive,
+            "inconclusive_reasons": total.inconclusive_reasons,
+            "runs_per_hour": if wall > 0.0 { (total.runs as f64 / wall * 3600.0) as u64 } else { 0 },
+            "seeds": seeds,
+            "batches": per_profile,
+            "capped_by_wall_clock": capped_any,
+            "statements_executed": total.stmts,
+            "simulated_time_interpreter_steps": total.ticks,
+            "outcomes": {"value": total.values, "raised": total.raised, "cancelled": total.cancelled},
+            "faults_fired": {
+                "write_refused_F1": total.refused,
+                "short_write_F2": total.short_writes,
+                "eintr_F3": total.eintr,
+                "cancellation_F7": total.cancelled,
+                "ill_formed_statement_raised_F10": total.raised,
+            },
+            "hasher_configurations_F8": total.hash_modes,
+            "probes": total.probes,
+            "statement_kinds": total.kinds,
+            "states": total.state_hashes.len(),
+            "distinct_scripts": total.script_hashes.len(),
+            "violations_raw": violation_count,
+            "known_findings_hit": known_hits,
+            "foreign_violations": foreign_hits,
+            "components": {
+                "real": ["lexer", "parser", "evaluate", "all builtins", "numeric tower", "streams", "copy-on-write Rc machinery", "Env/TopEnv", "dependencies (num, regex, flate2)"],
+                "stub": ["TopEnv.output (SimWriter)", "TopEnv.input (SimReader)", "HashMap BuildHasher (H2 seam)", "evaluation budget (H1 seam)", "global allocator wrapper (counting)"]
+            }
+        }
+    });
+    if let Some(dir) = std::path::Path::new(&evidence_path).parent() {
+        let _ = std::fs::create_dir_all(dir);
+    }
+    std::fs::write(&evidence_path, serde_json::to_string_pretty(&ev).unwrap()).unwrap();
+    println!(
+        "runs={} completed={} inconclusive={} raw_violations={} new={} known_hits={:?} wall={:.1}s",
+        total.runs,
+        total.completed,
+        total.inconclusive,
+        violation_count,
+        new_violations.len(),
+        known_hits,
+        wall
+    );
+    if harness_errors > 0 {
+        return 2;
+    }
+    if new_violations.is_empty() {
+        0
+    } else {
+        1
+    }
+}
+
 pub fn main(args: Vec<String>) -> i32 {
     install_panic_hook();
     let cmd = args.get(1).map(|s| s.as_str()).unwrap_or("");
     match cmd {
+        "check" => do_check(&args),
+        "replay" => match args.get(2) {
+            Some(p) => do_replay(p),
+            None => 2,
+        },
         "batch" => {
             let profile = arg_val(&args, "--profile").unwrap_or("alias".into());
             let seed: u64 = arg_val(&args, "--seed").and_then(|s| s.parse().ok()).unwrap_or(1);
@@ -285,15 +635,19 @@ pub fn main(args: Vec<String>) -> i32 {
                 *by_kind.entry(format!("{:?}", v.kind)).or_insert(0) += 1;
             }
             println!("violations by kind: {:?}", by_kind);
-            for (i, v, s) in agg.violations.iter().take(arg_val(&args, "--show").and_then(|s| s.parse().ok()).unwrap_or(3)) {
-                println!("--- violation at run {} stmt {} kind {:?}", i, v.stmt_index, v.kind);
-                for (j, l) in rendered(s).iter().enumerate() {
-                    if j <= v.stmt_index {
+            let show: usize = arg_val(&args, "--show").and_then(|s| s.parse().ok()).unwrap_or(3);
+            let do_min = args.iter().any(|a| a == "--min");
+            for (i, v, s) in agg.violations.iter().take(show) {
+                let (s2, v2) = if do_min { crate::min::minimise(s, v, 600) } else { (s.clone(), v.clone()) };
+                println!("--- violation at run {} stmt {} kind {:?}", i, v2.stmt_index, v2.kind);
+                for (j, l) in rendered(&s2).iter().enumerate() {
+                    if j <= v2.stmt_index {
                         println!("   {}", l);
                     }
                 }
-                println!("   expected: {}", v.expected);
-                println!("   observed: {}", v.observed);
+                println!("   cfg: {:?}", s2.cfg);
+                println!("   expected: {}", v2.expected);
+                println!("   observed: {}", v2.observed);
             }
             if agg.violations.is_empty() {
                 0
@@ -302,7 +656,7 @@ pub fn main(args: Vec<String>) -> i32 {
             }
         }
         _ => {
-            eprintln!("usage: nsim batch --profile P --seed S --runs N [--threads T]");
+            eprintln!("usage: nsim check --property ID [--tier quick|thorough] | replay FILE | batch --profile P --seed S --runs N");
             2
         }
     }
